@@ -192,7 +192,7 @@ func compare(c *Case, ans []string, r *RealOut) []Mismatch {
 			}
 		}
 	}
-	if !(f["st"] == "err") || r.HasErr {
+	if (!(f["st"] == "err") || r.HasErr) && c.BadWriter == 0 {
 		wl, _ := unhxList(f["warn"])
 		if wt := warnText(wl); wt != r.Writer {
 			add("warn", "writer", wt, r.Writer)
@@ -358,7 +358,7 @@ func compareDispatch(c *Case, df map[string]string, r *RealOut, add func(cat, fi
 		}
 	case "help", "roothelp":
 		t, _ := unhx(df["text"])
-		if t != r.DWriter {
+		if t != r.DWriter && c.BadWriter == 0 {
 			add("dtext", "help", t, r.DWriter)
 		}
 	case "req":
